@@ -539,7 +539,7 @@ class Client(base_client.BaseClient):
         """Handle the Engine.IO disconnection event."""
         self.logger.info('Engine.IO connection dropped')
         will_reconnect = self.reconnection and self.eio.state == 'connected'
-        if self.connected:
+        if self.connected or self.namespaces:
             for n in self.namespaces:
                 self._trigger_event('disconnect', n, reason)
                 if not will_reconnect:
